@@ -233,6 +233,15 @@ class Monitor:
             if attr in klass.__dict__:
                 raw = klass.__dict__[attr]
                 break
+        if raw is not None and klass is not cls:
+            # the class INHERITS the attribute (it may have overridden it in another version of the tree): when what it
+            # inherits is already one of our wrappers - the base class was hooked first - wrapping it again on the
+            # subclass would run the monitor twice per call (a refactoring that drops an override must not turn into
+            # a double count: harmless C14-R9)
+            fn_ = raw.fget if isinstance(raw, property) else getattr(raw, "__func__", raw)
+            if hasattr(fn_, "__rv_orig__"):
+                self.notes[f"hook-inherited:{cls.__name__}.{attr}"] = 1
+                return None
         if raw is None and attr.startswith("_") and not attr.startswith("__"):
             self.notes[f"hook-missing:{name or attr}"] = 1
             return None
